@@ -147,6 +147,10 @@ func DialTimeout(network, address string, timeout time.Duration) (net.Conn, erro
 		return nil, errors.New("simnet: no world installed")
 	}
 	simrt.Yield("dial " + network + "!" + address)
+	if _, _, err := net.SplitHostPort(address); err != nil {
+		// what the real dialler says to an address without a port, or to an IPv6 address without brackets
+		return nil, &net.OpError{Op: "dial", Net: network, Err: err}
+	}
 	s, err := world.Dial(network, address, timeout)
 	if err != nil {
 		return nil, &net.OpError{Op: "dial", Net: network, Addr: addr{network, address}, Err: err}
